@@ -90,7 +90,60 @@ def skeletons_refuse_probe(ctx_, work, rng, nb):
         if rc != 0:
             fails.append({"property": ctx_["prop"], "idl": l2obj.render_idl(methods), "observed": (e or o)[-600:],
                           "what": "a skeleton faults on an invocation with a wrong counts word (exit %s)" % rc})
+        # the same program with the spy's size perturbations (object-bearing structs included): the
+        # three skeletons must give the same verdict for the same perturbed call
+        import l2data
+        rc, o, e = vlib.run([os.path.join(root, "l2obj")], timeout=300, env=dict(vlib.ENV, ASAN_OPTIONS="detect_leaks=0", L2_PERTURB="1"))
+        V = l2data.perturb_verdicts(o)
+        for caller in ("c", "cpp", "rust"):
+            ref = V.get("%s c" % caller, [])
+            ntry += len(ref)
+            for impl in ("cpp", "rust"):
+                got = V.get("%s %s" % (caller, impl), [])
+                bad = next(((x, y) for x, y in zip(ref, got) if x != y), None)
+                if bad or len(ref) != len(got):
+                    fails.append({"property": ctx_["prop"], "idl": l2obj.render_idl(methods), "caller": caller, "skeleton": impl,
+                                  "what": "the %s skeleton and the C skeleton disagree on an invocation with one buffer size changed by one: (op, slot, delta, refused, implementation entered) = %s vs C %s"
+                                          % (impl, bad[1] if bad else "%d verdicts" % len(got), bad[0] if bad else "%d verdicts" % len(ref))})
+        if rc != 0:
+            fails.append({"property": ctx_["prop"], "idl": l2obj.render_idl(methods), "observed": (e or o)[-600:],
+                          "what": "a skeleton faults on an invocation with one buffer size changed by one (exit %s)" % rc})
     return ntry, fails[:12]
+
+
+def size_perturbation_probe(ctx_, work, rng, nb):
+    """fixed-size buffer sizes against the C, C++ and Rust skeletons: the data nine-pairing program
+    with the spy of rt/obj/main.c replaying every well-formed invocation with one input buffer one byte
+    short and one byte long (scratch copies).  For the same call the three skeletons must give the
+    same verdict - refused without entering the implementation, or served (variable-size arguments) -
+    and the C skeleton's verdicts are the ones the guard model is compared with above."""
+    import l2data
+    fails, n = [], 0
+    for b in range(nb):
+        ms = l2data.gen_methods(rng, 9)
+        r = l2data.build_and_run(ctx_["idlc"], os.path.join(work, "pertdata%d" % b), ms, chain=(b % 2 == 1), extra_env={"L2_PERTURB": "1"})
+        idl = l2data.render_idl(ms, b % 2 == 1)
+        if r.get("stage") != "run" or r.get("rc") != 0:
+            fails.append({"property": ctx_["prop"], "idl": idl, "what": "the nine-pairing data program does not build or aborts under size perturbations (%s): %s" % (r.get("stage"), (r.get("err") or "")[-600:])})
+            continue
+        V = l2data.perturb_verdicts(r["out"])
+        for caller in ("c", "cpp", "rust"):
+            ref = V.get("%s c" % caller, [])
+            n += len(ref)
+            for impl in ("cpp", "rust"):
+                got = V.get("%s %s" % (caller, impl), [])
+                for x, y in zip(ref, got):
+                    if x != y:
+                        fails.append({"property": ctx_["prop"], "idl": idl, "caller": caller, "skeleton": impl,
+                                      "what": "the %s skeleton and the C skeleton disagree on an invocation with one input buffer size changed: (op, slot, delta, refused, implementation entered) = %s vs C %s" % (impl, y, x)})
+                        break
+                if len(ref) != len(got):
+                    fails.append({"property": ctx_["prop"], "idl": idl, "what": "different number of perturbed invocations for %s -> %s (%d vs %d)" % (caller, impl, len(got), len(ref))})
+            for x in ref:
+                if x[4] and x[3]:
+                    fails.append({"property": ctx_["prop"], "idl": idl, "what": "the C skeleton entered the implementation and reported an error for a perturbed invocation %s" % (x,)})
+                    break
+    return n, fails[:12]
 
 
 def run(ctx_):
@@ -215,9 +268,12 @@ def run(ctx_):
                                     "what": "%s skeleton: the guard of %s reads argument slots before it has compared the counts word (an envelope with fewer slots than the method's is read out of bounds before it is refused)" % (lang, mname)})
         for bad in out["bad"][:8]:
             res["failures"].append({"property": prop, "idl": text, "method": bad[0], "perturbation": bad[1], "what": "skeleton: %s (%s %s)" % (bad[2][:500], bad[0], bad[1])})
+    sp_n, sp_fails = size_perturbation_probe(ctx_, work, vlib.mkrng(seed, prop + "-sizes"), 1 if tier == "quick" else 12)
+    res["failures"] += sp_fails
     sr_n, sr_fails = skeletons_refuse_probe(ctx_, work, vlib.mkrng(seed, prop + "-skeletons"), 1 if tier == "quick" else 10)
     res["failures"] += sr_fails
     res["coverage"] = {
+        "size_perturbation_probe": {"perturbed_invocations_per_skeleton": sp_n, "skeletons": "C, C++, Rust", "disagreements": len(sp_fails)},
         "skeletons_refuse_probe": {"wrong_counts_invocations": sr_n, "skeletons": "C, C++, Rust", "served_or_status_0": len(sr_fails)},
         "evaluations": nenv, "distinct_nontrivial": distinct,
         "rule": "%d generated interfaces of 12 methods (25%% optional, half of those without implementation); per method outside the known classes: every "
